@@ -64,6 +64,17 @@ func (f *Frame) resolveSourceNameAt(name string, h *ssa.BasicBlock, before int, 
 	mk := func(t Term, ty types.Type) (SVal, bool) {
 		return SVal{t, &SType{Go: ty, Sort: vc.sorts.sortOf(ty)}}, true
 	}
+	// 0. `rangepos`: how many entries a `for ... range <map|string>` loop whose header is h has
+	// consumed so far (the position of its iterator)
+	if name == "rangepos" {
+		for _, instr := range h.Instrs {
+			if nx, ok := instr.(*ssa.Next); ok {
+				if ri := f.rangeOf[nx.Iter]; ri != nil {
+					return SVal{vc.get(st, ri.posKey), &SType{Sort: "Int"}}, true
+				}
+			}
+		}
+	}
 	// 1. phi at the header named `name`
 	for _, instr := range h.Instrs {
 		phi, ok := instr.(*ssa.Phi)
@@ -92,6 +103,11 @@ func (f *Frame) resolveSourceNameAt(name string, h *ssa.BasicBlock, before int, 
 			}
 			obj := d.Object()
 			if obj == nil || obj.Name() != name {
+				continue
+			}
+			if tv, isVar := obj.(*types.Var); isVar && tv.IsField() {
+				// a field selection x.name also carries an identifier called `name`:
+				// that is not the variable `name`
 				continue
 			}
 			if b == h && before >= 0 {
